@@ -166,6 +166,18 @@ def search_one(case, real, cache):
     names = [l.split(b": ", 1)[0].decode("latin-1") for l in lines[1:]]
     if names != sorted(names):
         return ("fields not sorted by name", repr(sorted(names)), repr(names))
+    app_seq = {}
+    for k, v in pairs:
+        try:
+            app_seq.setdefault(py_norm(k), []).append(("%s: %s" % (py_norm(k), v)).encode("latin-1"))
+        except UnicodeEncodeError:
+            pass
+    for nk, seq in app_seq.items():
+        if nk == "Content-Length":
+            continue
+        got = [l for l in lines[1:] if l in seq]
+        if got[:len(seq)] != seq:
+            return ("fields of equal name not in the application's order", repr(seq), repr(got))
     return None
 
 
